@@ -62,7 +62,10 @@ GEN_ITEMS = ["lab", "call", "set", "usevar", "ifused", "ifnused", "ifdef", "macr
              "define",
              # a few hundred INCLUDE executions per run (over all passes): whatever is booked per inclusion must be
              # given back independently of the include list option
-             "manyinc"]
+             "manyinc",
+             # IFEXIST / IFNEXIST of a file that lies next to the source (found relative to the source, whatever the
+             # working directory is) and of one that does not exist
+             "existrel"]
 
 
 def render_gen(items):
@@ -130,6 +133,9 @@ def render_gen(items):
             if not incd:
                 L += ["\trept %d" % (100 + a % 60), "\tinclude \"gi.inc\"", "\tendm"]
                 incd = True
+        elif k == "existrel":
+            L += ["\tifexist \"gi.inc\"", "\tdb %d" % (a & 255), "\telse", "\tdb %d,1" % (a & 255), "\tendif",
+                  "\tifnexist \"gi.inc\"", "\tdb 3,%d" % (a & 127), "\tendif", "\tifexist \"gnone.inc\"", "\tdb 4", "\tendif"]
         elif k == "float":
             L.append("\t%s %s" % (["dd", "dq", "dq", "dd"][a % 4],
                                    ["1e-310", "4.94e-324,2e-320", "1.0e308,1e-308", "1e-45,1.5"][a % 4]))
@@ -225,10 +231,13 @@ def one_run(t, case, toks, d, tag):
     wd = d
     srcarg = name + ".asm"
     has_private = any(k.lower().endswith((".inc", ".asm", ".p", ".bin")) or "." not in k for k in t["extra"])
-    use_cwd = case["cwd"] and not [k for k in t["extra"] if not k.lower().endswith(".doc")]
+    # the source in another directory than the working directory: what it includes (INCLUDE, BINCLUDE, IFEXIST) lies
+    # next to it and is found relative to it
+    use_cwd = case["cwd"]
     if use_cwd:
         os.makedirs(os.path.join(d, "srcdir"), exist_ok=True)
         os.makedirs(os.path.join(d, "elsewhere"), exist_ok=True)
+        run.write_files(os.path.join(d, "srcdir"), dict(files))
         files = {}
         run.write_files(os.path.join(d, "srcdir"), {name + ".asm": t["src"]})
         wd = os.path.join(d, "elsewhere")
@@ -296,7 +305,7 @@ def one_run(t, case, toks, d, tag):
 def program_of(case):
     if "gen" in case:
         src = render_gen(case["gen"]).encode("latin-1")
-        extra = {"gi.inc": b"\tdb var&255\nvar\tset var+1\n"} if any(it[0] == "manyinc" for it in case["gen"]) else {}
+        extra = {"gi.inc": b"\tdb var&255\nvar\tset var+1\n"} if any(it[0] in ("manyinc", "existrel") for it in case["gen"]) else {}
         return dict(name="g" + engine.digest(src)[:8], src=src, ori=None, flags=[], extra=extra)
     if case.get("var"):
         return variants.load(case["test"], case["var"])
